@@ -95,6 +95,12 @@ def first_avp_of_each_code(message):
     """
     first = dict()
     for avp in message.avps:
+        #: The AVPs the validators know are the base protocol's own. A
+        #: vendor-specific AVP that happens to bear one of their codes (every
+        #: vendor numbers its own AVPs) is none of them: it neither stands in
+        #: for a missing one nor hides the real one that follows it.
+        if avp.is_vendor_id():
+            continue
         first.setdefault(avp.code, avp)
     return list(first.values())
 
@@ -371,7 +377,10 @@ class ProcessCapabilityExchange():
     def process_answer(self):
         ProcessDiameterMessage.process_answer_from_existing_pending_request(self.association, self.message)
         for avp in first_avp_of_each_code(self.message):
-            if ProcessDiameterMessage.is_valid_result_code_avp(avp):
+            #: The capabilities exchange has succeeded when the peer says so:
+            #: a CEA with an error Result-Code is the peer's refusal.
+            if ProcessDiameterMessage.is_valid_result_code_avp(avp) and \
+                    2000 < int.from_bytes(avp.data, "big") < 3000:
                 self.checklist_mandatory_avps += 1
 
             if ProcessDiameterMessage.is_valid_origin_host_avp(avp, self.connection):
